@@ -80,9 +80,28 @@ Proof.
   intros fuel P g H. unfold f7q_class. rewrite H. apply goal_any_false. intros. apply f7q_atom_inductive.
 Qed.
 
+Lemma pairs_later_false : forall (A : Type) (f : A -> A -> bool) l, (forall x y, f x y = false) -> pairs_later f l = false.
+Proof.
+  intros A f l H. induction l as [|a r IH]; [reflexivity|]. cbn [pairs_later]. rewrite IH, orb_false_r.
+  apply existsb_all_false. intros y _. apply H.
+Qed.
+
+Lemma two_cycle_members_inductive : forall fuel cls a1 a2, two_cycle_members fuel cls [] a1 a2 = false.
+Proof.
+  intros. unfold two_cycle_members. apply existsb_all_false. intros g _. now rewrite isco_nil.
+Qed.
+
+Lemma f7n_conj_inductive : forall fuel g P env rho, pcoind P = [] -> f7n_conj fuel P env rho g = false.
+Proof.
+  intros fuel. induction g as [a|t1 t2|g1 IH1 g2 IH2| |g IH|g IH|hs g IH|g IH]; intros P env rho H; cbn [f7n_conj]; auto.
+  - now rewrite IH1, IH2.
+  - rewrite H, IH by assumption. rewrite orb_false_r. apply pairs_later_false. intros. apply two_cycle_members_inductive.
+Qed.
+
 Theorem f7n_class_inductive : forall fuel P g, pcoind P = [] -> f7n_class fuel P g = false.
 Proof.
-  intros fuel P g H. unfold f7n_class. rewrite H. apply goal_any_neg_false. intros. apply f7n_atom_inductive.
+  intros fuel P g H. unfold f7n_class. rewrite f7n_conj_inductive, orb_false_r by assumption.
+  rewrite H. apply goal_any_neg_false. intros. apply f7n_atom_inductive.
 Qed.
 
 Theorem f7q_query_inductive : forall fuel P q cands, pcoind P = [] -> f7q_query fuel P q cands = false.
@@ -100,9 +119,17 @@ Fixpoint has_not (g : goal) : bool :=
   | _ => false
   end.
 
+Lemma f7n_conj_needs_not : forall fuel g P env rho, has_not g = false -> f7n_conj fuel P env rho g = false.
+Proof.
+  intros fuel. induction g as [a|t1 t2|g1 IH1 g2 IH2| |g IH|g IH|hs g IH|g IH]; intros P env rho H; cbn [f7n_conj has_not] in *; auto.
+  - apply orb_false_iff in H. destruct H. now rewrite IH1, IH2.
+  - discriminate.
+Qed.
+
 Theorem f7n_class_needs_not : forall fuel P g, has_not g = false -> f7n_class fuel P g = false.
 Proof.
-  intros fuel P g. unfold f7n_class. generalize (@nil clause) as env. generalize (@nil ty) as rho.
+  intros fuel P g H. unfold f7n_class. rewrite f7n_conj_needs_not, orb_false_r by assumption. revert H.
+  generalize (@nil clause) as env. generalize (@nil ty) as rho.
   induction g as [a|t1 t2|g1 IH1 g2 IH2| |g IH|g IH|hs g IH|g IH]; intros rho env H; cbn [goal_any_neg has_not] in *; auto.
   - apply orb_false_iff in H. destruct H. now rewrite IH1, IH2.
   - discriminate.
